@@ -211,9 +211,17 @@ def make_observer(disp, spec, world=None):
         from job_shop_lib.dispatching.feature_observers import feature_observer_factory
 
         kw = {}
+        how = spec.get("how", "str")
         if spec.get("ft") is not None:
             kw["feature_types"] = _ft(spec["ft"])
-        how = spec.get("how", "str")
+            if len(kw["feature_types"]) == 1 and how in ("enum", "class"):
+                kw["feature_types"] = kw["feature_types"][0]  # a single FeatureType is accepted in place of a list
+        if how == "class":
+            # the class itself, constructed directly (no factory)
+            from job_shop_lib.dispatching import feature_observers as fo
+
+            cls = getattr(fo, "".join(x.capitalize() for x in t.split("_")) + "Observer")
+            return cls(disp, subscribe=sub, **kw)
         if how == "enum":
             from job_shop_lib.dispatching.feature_observers import FeatureObserverType
 
@@ -226,6 +234,11 @@ def make_observer(disp, spec, world=None):
     if t == "composite":
         from job_shop_lib.dispatching.feature_observers import CompositeFeatureObserver
 
+        if spec.get("explicit"):
+            # the parts named explicitly: the feature observers subscribed right now, i.e. what the default picks up
+            from job_shop_lib.dispatching.feature_observers import FeatureObserver
+
+            return CompositeFeatureObserver(disp, subscribe=sub, feature_observers=[o for o in disp.subscribers if isinstance(o, FeatureObserver)])
         return CompositeFeatureObserver(disp, subscribe=sub)
     if t == "unscheduled":
         from job_shop_lib.dispatching import UnscheduledOperationsObserver
